@@ -17,7 +17,10 @@ VAL  : the Go scheduler cannot be replayed step by step, so the binding is trace
        once handles, nested components, flushes, failing expressions/components, slow and failing writers,
        templ.ToGoHTML and the buffered templ.Handler for the bytes.Buffer pool, and a Gallery template whose variants
        go through class expressions in every container form, css components, script templates / on* attributes,
-       style, URL and spread attributes, JSONScript, Raw) from N goroutines x M renders, every goroutine with a
+       style, URL and spread attributes, JSONScript, Raw; library components of the root package created ONCE --
+       templ.Join (nested, with parts that fail), Raw, a ComponentScript, a once handle with a component, JSONScript --
+       rendered directly, with per-render writer faults so that some renders fail midway: the returned error is part
+       of what is compared) from N goroutines x M renders, every goroutine with a
        destination of one of the four kinds; before that a render of a document larger than the buffer into a writer that
        stalls, during which 4 goroutines must complete their renders within 10 s (every wait is bounded: verdict or exit 2,
        never a hang); and, on one goroutine, A, B, A, B into two destinations of each kind;
@@ -41,6 +44,7 @@ NEG = {  # seeded defect -> (DevMode, invariants that may reject it)
     "cacheunlocked": ("TRUE", {"MutexProtectsCache"}),
     "idrace": ("FALSE", {"UniqueIds"}),
     "doubleput": ("FALSE", {"ExclusiveBuffer", "Isolated"}),
+    "sharederr": ("FALSE", {"Isolated"}),       # a component created once keeps the error of a render in a variable of its own
     "lockacrosswrite": ("TRUE", {"IndependentOfStalledWriters"}),  # checked on RenderPool_stall.cfg
     "adoptbufio": ("FALSE", {"OwnDestinationOnly", "Isolated"}),  # checked on RenderPool_dest.cfg (all destination kinds)      # a pooled scratch object released twice for one Get
 }
